@@ -548,6 +548,9 @@ def stream_ipv4(ctx, r):
     for s in gens.bounded_strings(alphabet, k):
         lines.append("ipv4 %s" % tok_units("w", s))
         lines.append("endsnum %s" % tok_units("w", s))
+    for s in gens.bounded_strings([ord(c) for c in "01x.a"], 4):
+        for f in "xy":
+            lines.append("ipv4 %s" % tok_units("b", s, f)); lines.append("endsnum %s" % tok_units("h", s, f))
     nums = ["0", "1", "255", "256", "65535", "65536", "16777215", "16777216", "4294967295", "4294967296", "0xff", "0x100", "0xffffffff", "0x100000000",
             "0377", "0400", "037777777777", "040000000000", "00000000000", "000000000001", "0x00000000001", "99999999999", "999999999999",
             "18446744073709551616", "0x10000000000000000", "08", "09", "0x", "0X1", "1" * 11, "1" * 12, "7" * 11, "7" * 12, ""]
@@ -591,6 +594,7 @@ def stream_ipv6(ctx, r):
     alphabet = [ord(c) for c in "01fg:."]
     k = scale(ctx, 5, 7)
     lines = ["ipv6 %s" % tok_units("b", s) for s in gens.bounded_strings(alphabet, k)]
+    lines += ["ipv6 %s" % tok_units(e, s, f) for s in gens.bounded_strings(alphabet, 3) for e in "bh" for f in "xy"]
     hexp = ["0", "1", "f", "00", "0000", "00000", "ffff", "FFFF", "10000", "abcd", "1234", "g", "", "0001", "a"]
     for rep in range(scale(ctx, 5000, 100000)):
         n = r.randint(0, 9)
@@ -732,6 +736,16 @@ def stream_urlenc(ctx, r):
     alphabet = [ord(c) for c in "a=&+%41g?"] + [0xC3, 0xA9]
     for s in gens.bounded_strings(alphabet, scale(ctx, 4, 6)):
         lines.append("urlenc_parse %d %s" % (r.randint(0, 1), tok_units("b", s)))
+    for s in gens.bounded_strings([ord(c) for c in "a=&%4f"], 4):
+        for f in "xy":
+            lines.append("urlenc_parse 0 %s" % tok_units("b", s, f))
+    for rep in range(scale(ctx, 200, 2000)):
+        pre = "0123456789abcdefghij"[: r.choice([9, 10, 13, 14, 15, 16, 20])]
+        bad = r.choice([[0xFF], [0xC3], [0xE2, 0x82], [0xED, 0xA0, 0x80], [0xF0, 0x9F], [0x80]])
+        badtxt = bad if r.random() < 0.5 else S("".join("%%%02X" % b for b in bad))
+        tail = S(r.choice(["abcde", "x", "%41", "", "&k=v"]))
+        body = S(pre) + badtxt + tail
+        lines.append("urlenc_parse %d %s" % (r.randint(0, 1), tok_units("b", r.choice([S("v="), S("a=1&"), []]) + body + r.choice([[], S("=") + body]))))
     for rep in range(scale(ctx, 300, 5000)):
         lines.append("usp_empty 0")
         for _ in range(r.randint(1, 5)):
@@ -927,6 +941,15 @@ def stream_filepath(ctx, r):
     for srv in ["localhost", "LOCALHOST", "LocalHost", "\uff4cocalhost", "loc%61lhost"]:
         lines.append("filert windows %s" % tok("\\\\" + srv + "\\share\\x"))
         lines.append("filert windows %s" % tok("\\\\" + srv + "\\C:\\x"))
+    # file names whose percent-encoded form is one escape run of several hundred bytes made of characters of different
+    # UTF-8 lengths (a character straddles every internal chunk boundary of the decoder): round trip must hold
+    for rep in range(scale(ctx, 60, 600)):
+        chars = []
+        for _ in range(r.randint(2, 4)):
+            chars += [r.choice(["\u00e9", "\u65e5", "\U0001f4a9", "\u07ff", "\u0800", " "])] * r.choice([1, 2, 3, 63, 64, 70, 85, 128])
+        name = "".join(chars)[: r.choice([70, 100, 200, 400])]
+        lines.append("filert posix %s" % tok("/d/" + name + ".txt", r.choice(["b", "h", "w"])))
+        lines.append("filert windows %s" % tok("C:\\d\\" + name, r.choice(["b", "h", "w"])))
     for rep in range(scale(ctx, 1500, 30000)):
         k = r.random()
         if k < 0.25:
